@@ -17,7 +17,7 @@ RULE = ('host models = (errno table, signal enum, address-family enum, socket-ki
         'socket.SOL_SOCKET in their home modules and in every module global of pykdebugparser.* that is identical to '
         'them; plus one RELOAD of the decoder modules on an "alien platform" (every integer constant of errno / socket / '
         'signal renumbered or removed), on the BSD-numbered host, on the Darwin model and on a close relative, so that tables built from the host at import time are seen too. Cases: every BSD decoder x EVERY error code 1..140 x 2 (quick) / 4 (thorough) START shapes under the real host and the Darwin model (errno table and E* constants swapped); every BSD decoder x sampled codes under all five models, sigaction 1..31, '
-        'socket/socketpair/socket_delegate x Darwin families x kinds 1..5, get/setsockopt with levels 0xffff/1/6/0. '
+        'socket/socketpair/socket_delegate x Darwin families x kinds 1..5 and x 16 types Darwin does not define (Darwin types or-ed with Linux / BSD creation flags: same outcome on every host, never a SOCK_* name), get/setsockopt with levels 0xffff/1/6/0. '
         'Oracle: (1) the rendered text is identical under every host model; (2) the names are Darwin\'s: errno and '
         'signal tables of xnu, required family names, SOCK_*, SOL_SOCKET + SO_* for level 0xffff; codes Darwin does '
         'not define are shown numerically. Non-trivial: the code\'s name differs between at least two host models; '
@@ -192,6 +192,32 @@ def prop_socket(ctx, case):
     ctx.note([name, af, kind], nontrivial=af > 2 or kind > 3, classes=['socket'])
 
 
+def prop_socket_undefined(ctx, case):
+    """a socket type Darwin does not define (among them Darwin types or-ed with another platform's SOCK_NONBLOCK /
+    SOCK_CLOEXEC bits): whatever the tool does with it (numeric rendering or rejection), it does the same on every
+    host and never gives it one of Darwin's SOCK_* names"""
+    name, af, kind, seed = case['name'], case['af'], case['kind'], case['seed']
+    outcomes = {}
+    for label, m in models(seed):
+        with host(m):
+            try:
+                outcomes[label] = ('text', render(name, [af, kind, 6, 9], [0, 5, 0, 0]))
+            except Violation:
+                raise
+            except Exception as e:  # noqa: rejecting an undefined type is allowed, but then on every host
+                outcomes[label] = ('raises', type(e).__name__)
+    if len(set(outcomes.values())) != 1:
+        ref = outcomes['darwin']
+        other = next(k for k, v in outcomes.items() if v != ref)
+        raise Violation(f'host-dependent:socket-type:{name}', f'{name} type {kind:#x}: under host model "darwin": {ref}; under "{other}": {outcomes[other]}')
+    kind_, val = outcomes['darwin']
+    if kind_ == 'text':
+        params = TP.split_call(val)[1]
+        if params[1].startswith('SOCK_'):
+            raise Violation(f'not-darwin-name:sock:{kind:#x}', f'{name}: type {kind:#x} is not a Darwin socket type but is rendered {params[1]}')
+    ctx.note([name, af, kind], nontrivial=True, classes=['socket-undefined-type', kind_])
+
+
 def prop_sockopt(ctx, case):
     name, level, opt, seed = case['name'], case['level'], case['opt'], case['seed']
     txt = check_same(name, guard(render_under, name, [3, level, opt, 0x40], [0, 0, 0, 0], seed), 'sockopt')
@@ -297,7 +323,7 @@ def prop_reload(ctx, case):
         ctx.note(['reload', label, len(cases)], nontrivial=True, classes=['reload:' + label.split()[-2] + '-' + label.split()[-1]])
 
 
-PROPS = {'reload': prop_reload, 'errno_sweep': prop_errno_sweep, 'errno': prop_errno, 'signal': prop_signal, 'socket': prop_socket, 'sockopt': prop_sockopt}
+PROPS = {'socket_undefined': prop_socket_undefined, 'reload': prop_reload, 'errno_sweep': prop_errno_sweep, 'errno': prop_errno, 'signal': prop_signal, 'socket': prop_socket, 'sockopt': prop_sockopt}
 
 
 def run(ctx):
@@ -321,6 +347,9 @@ def run(ctx):
     so = [{'name': n, 'af': af, 'kind': k, 'seed': base + af * 7 + k}
           for n in ('BSC_socket', 'BSC_socketpair', 'BSC_socket_delegate') for af in sorted(D.AF) for k in range(1, 6)]
     ctx.run_enum('socket', so, prop_socket, exhaustive_label='Darwin address families x socket kinds')
+    odd = [0x801, 0x802, 0x80001, 0x80002, 0x80801, 0x800, 0x80000, 0x20000001, 0x10000002, 0x30000001, 0x4001, 0x8001, 6, 7, 0, 0x100000001]
+    su = [{'name': n, 'af': 2 + (i % 2) * 28, 'kind': k, 'seed': base + i} for n in ('BSC_socket', 'BSC_socketpair', 'BSC_socket_delegate') for i, k in enumerate(odd)]
+    ctx.run_enum('socket_undefined', su, prop_socket_undefined, exhaustive_label='socket types Darwin does not define (Darwin types | other platforms\' creation flags)')
     opts = sorted(D.SO)
     sk = [{'name': n, 'level': lv, 'opt': opts[(i * 5 + j) % len(opts)] if lv == 0xffff else (i + j) % 300, 'seed': base + i}
           for n in ('BSC_setsockopt', 'BSC_getsockopt') for j, lv in enumerate((0xffff, 1, 6, 0, 0xffff)) for i in range(len(opts))]
